@@ -56,15 +56,15 @@ Section Sponge.
     end.
   Definition squeeze (st : list N) (n : nat) : list N := squeeze_f (S n) st n.
 
-  Definition sponge (ds : N) (outlen : nat) (msg : list N) : list N :=
+  Definition sponge_hash (ds : N) (outlen : nat) (msg : list N) : list N :=
     squeeze (absorb zero_state (msg ++ pad101 rate ds (length msg))) outlen.
 End Sponge.
 
 (* ---- FIPS 202 instances ---- *)
-Definition SHA3_256 (msg : list N) : list N := sponge keccakf 136 6 32 msg.
-Definition SHA3_384 (msg : list N) : list N := sponge keccakf 104 6 48 msg.
-Definition Keccak_256 (msg : list N) : list N := sponge keccakf 136 1 32 msg.
-Definition SHAKE128 (msg : list N) (outlen : nat) : list N := sponge keccakf 168 31 outlen msg.
+Definition SHA3_256 (msg : list N) : list N := sponge_hash keccakf 136 6 32 msg.
+Definition SHA3_384 (msg : list N) : list N := sponge_hash keccakf 104 6 48 msg.
+Definition Keccak_256 (msg : list N) : list N := sponge_hash keccakf 136 1 32 msg.
+Definition SHAKE128 (msg : list N) (outlen : nat) : list N := sponge_hash keccakf 168 31 outlen msg.
 
 (* ---- SP 800-185 section 2.3 ---- *)
 
@@ -89,7 +89,7 @@ Definition bytepad (x : list N) (w : nat) : list N :=
 Definition cSHAKE128 (X : list N) (outlen : nat) (Nm S : list N) : list N :=
   match Nm, S with
   | [], [] => SHAKE128 X outlen
-  | _, _ => sponge keccakf 168 4 outlen (bytepad (encode_string Nm ++ encode_string S) 168 ++ X)
+  | _, _ => sponge_hash keccakf 168 4 outlen (bytepad (encode_string Nm ++ encode_string S) 168 ++ X)
   end.
 
 (* ---- SP 800-185 section 4: KMAC128(K, X, L, S), L = 8*outlen bits ---- *)
